@@ -465,6 +465,7 @@ def public_save_stage(ctx):
             base = bases[0] if pi < len(plans) else bases[1 + pi - len(plans)]
             earlier = [{"name": f"old{i}", "out": entry_spec(rng, "tiny" if i else "small")} for i in range(n_earlier)]
             new_out = sl.build_output(entry_spec(rng, rng.choice(["tiny", "small"])))
+            later_out = sl.build_output(entry_spec(rng, "tiny"))
             model_dir = base / "model"
 
             def prepare():
@@ -490,10 +491,13 @@ def public_save_stage(ctx):
             n_ops = tr.n_inject
             ctx.count("public_save_ops", n_ops)
             for idx in range(1, n_ops + 1):
-                for mode in ("i", "d"):
+                kind_at = next((e.get("kind") for e in tr.events if e.get("idx") == idx), None)
+                for mode in ("i", "d", "e"):
+                    if mode == "e" and kind_at != "raw":
+                        continue          # a full disk shows up at a write(2)
                     prepare()
-                    if mode == "i":
-                        t2, _ = cl.traced_save(save_fn, base, plan=(idx, "i"), keep_bytes=False)
+                    if mode in ("i", "e"):
+                        t2, _ = cl.traced_save(save_fn, base, plan=(idx, mode), keep_bytes=False)
                         fired = t2.fired
                     else:
                         fired = cl.forked_save(save_fn, base, (idx, mode)) == cl.EXIT_INJECTED
@@ -515,10 +519,22 @@ def public_save_stage(ctx):
                         except Exception as e:
                             why = f"does not parse ({type(e).__name__})"
                     if ok:
-                        ctx.nontrivial.add(("public", pi, idx, mode))
-                        continue
+                        # the session goes on: the next ordinary save() in a healthy process must find a usable file, keep every
+                        # run saved before the interrupted save and add its own entry (whatever the fault left lying around)
+                        try:
+                            save.save(model_dir, "later_run", later_out)
+                            after = json.loads((model_dir / "data.json").read_text())
+                            lost = [k for k in old_parsed if not (k in after and sl.json_same(old_parsed[k], after[k]))]
+                            if lost or "later_run" not in after:
+                                ok, why = False, f"after the NEXT save() the results file lacks earlier runs {lost} / the new entry"
+                        except Exception as e:  # noqa: BLE001
+                            ok, why = False, f"the NEXT save() fails: {type(e).__name__}: {str(e)[:100]}"
+                        if ok:
+                            ctx.nontrivial.add(("public", pi, idx, mode))
+                            continue
+                        content = (model_dir / "data.json").read_bytes() if (model_dir / "data.json").exists() else None
                     ev = next((e for e in tr.events if e.get("idx") == idx), {})
-                    ctx.violation(f"save() interrupted ({'exception' if mode == 'i' else 'process death'}) at file operation {idx} of {n_ops} "
+                    ctx.violation(f"save() interrupted ({ {'i': 'exception', 'd': 'process death', 'e': 'I/O error that persists (disk full)'}[mode] }) at file operation {idx} of {n_ops} "
                                   f"({ev.get('kind')} {Path(ev.get('path', '')).name}) with {n_earlier} earlier runs "
                                   f"{'in a fresh model directory' if old is None else ''}: data.json afterwards {why}: {_show(content)}",
                                   {"entry_point": "incomplete_cooperative.run.save.save", "earlier_runs": n_earlier, "fault_at_operation": idx,
